@@ -354,6 +354,11 @@ func (s *pState) render(cw *cwriter.Writer) (err error) {
 			close(s.iterDrop)
 			return err
 		}
+		if height > 0 {
+			// the cursor rests below the last row written: a frame as tall as
+			// the terminal would scroll its first row out of reach
+			height--
+		}
 	} else {
 		if s.reqWidth > 0 {
 			width = s.reqWidth
